@@ -1,5 +1,7 @@
-"""C17 - see properties.jsonl; META is filled in below."""
-META = {"level": "proof", "trusted_base": [], "assumptions": [], "explanation": ""}
+"""C17 - claim and bounded driver; statement in properties.jsonl, design in DESIGN.md section 7."""
+from props.meta import META as _M
+
+META = _M["C17"]
 
 try:
     from props.C17_rac import rac, replay   # bounded run-time contract driver (stand-in + replay harness)
